@@ -1958,36 +1958,155 @@ func (n *normalizer) unrollFuncTables(d *ast.FuncDecl, pk *packages.Package) {
 			if !ok || valID.Name == "_" {
 				continue
 			}
-			tblID, ok := rs.X.(*ast.Ident)
-			if !ok {
-				continue
-			}
-			tv, _ := info.Uses[tblID].(*types.Var)
 			pv, _ := info.Defs[valID].(*types.Var)
-			if tv == nil || pv == nil || usesOf(tv) != 1 {
+			if pv == nil {
 				continue
 			}
-			// the table's definition, earlier in the same block
 			var def *ast.AssignStmt
 			var lit *ast.CompositeLit
-			for _, s := range b.List[:idx] {
-				as, ok := s.(*ast.AssignStmt)
-				if !ok || as.Tok != token.DEFINE || len(as.Lhs) != 1 || len(as.Rhs) != 1 {
+			tblName := "literal"
+			if cl, ok := rs.X.(*ast.CompositeLit); ok {
+				lit = cl // ranged over directly
+			} else if tblID, ok := rs.X.(*ast.Ident); ok {
+				tv, _ := info.Uses[tblID].(*types.Var)
+				if tv == nil || usesOf(tv) != 1 {
 					continue
 				}
-				if id, ok := as.Lhs[0].(*ast.Ident); ok && info.Defs[id] == types.Object(tv) {
-					if cl, ok := as.Rhs[0].(*ast.CompositeLit); ok {
-						def, lit = as, cl
+				tblName = tblID.Name
+				// the table's definition, earlier in the same block
+				for _, s := range b.List[:idx] {
+					as, ok := s.(*ast.AssignStmt)
+					if !ok || as.Tok != token.DEFINE || len(as.Lhs) != 1 || len(as.Rhs) != 1 {
+						continue
+					}
+					if id, ok := as.Lhs[0].(*ast.Ident); ok && info.Defs[id] == types.Object(tv) {
+						if cl, ok := as.Rhs[0].(*ast.CompositeLit); ok {
+							def, lit = as, cl
+						}
 					}
 				}
-			}
-			if def == nil || len(lit.Elts) == 0 {
+				if def == nil {
+					continue
+				}
+			} else {
 				continue
 			}
-			if st, ok := info.TypeOf(lit).Underlying().(*types.Slice); !ok {
+			if lit == nil || len(lit.Elts) == 0 || len(lit.Elts) > 8 {
 				continue
-			} else if _, isSig := st.Elem().Underlying().(*types.Signature); !isSig {
+			}
+			isFuncTable := false
+			switch st := info.TypeOf(lit).Underlying().(type) {
+			case *types.Slice:
+				_, isFuncTable = st.Elem().Underlying().(*types.Signature)
+			case *types.Array:
+				_, isFuncTable = st.Elem().Underlying().(*types.Signature)
+			default:
 				continue
+			}
+			if !isFuncTable {
+				// a table of plain values: every element is an address (&x, &a.b), a basic literal, or a name that the
+				// body does not assign - evaluating it at the head of its own copy of the body is then the same
+				// as evaluating all of them before the loop
+				assigned := map[string]bool{}
+				ast.Inspect(rs.Body, func(x ast.Node) bool {
+					switch y := x.(type) {
+					case *ast.AssignStmt:
+						for _, l := range y.Lhs {
+							e := l
+							for {
+								switch z := e.(type) {
+								case *ast.SelectorExpr:
+									e = z.X
+									continue
+								case *ast.IndexExpr:
+									e = z.X
+									continue
+								case *ast.StarExpr:
+									e = z.X
+									continue
+								case *ast.ParenExpr:
+									e = z.X
+									continue
+								}
+								break
+							}
+							if id, ok := e.(*ast.Ident); ok {
+								assigned[id.Name] = true
+							}
+						}
+					case *ast.IncDecStmt:
+						if id, ok := y.X.(*ast.Ident); ok {
+							assigned[id.Name] = true
+						}
+					}
+					return true
+				})
+				var plain func(e ast.Expr, addr bool) bool
+				plain = func(e ast.Expr, addr bool) bool {
+					switch z := e.(type) {
+					case *ast.BasicLit:
+						return true
+					case *ast.Ident:
+						return addr || !assigned[z.Name]
+					case *ast.SelectorExpr:
+						return plain(z.X, addr)
+					case *ast.UnaryExpr:
+						return z.Op == token.AND && plain(z.X, true)
+					case *ast.ParenExpr:
+						return plain(z.X, addr)
+					}
+					return false
+				}
+				okPlain := true
+				for _, e := range lit.Elts {
+					if _, isKV := e.(*ast.KeyValueExpr); isKV || !plain(e, false) {
+						okPlain = false
+					}
+				}
+				clean, used := true, false
+				ast.Inspect(rs.Body, func(x ast.Node) bool {
+					switch y := x.(type) {
+					case *ast.Ident:
+						if info.Uses[y] == types.Object(pv) {
+							used = true
+						}
+					case *ast.BranchStmt, *ast.DeferStmt, *ast.LabeledStmt, *ast.GoStmt:
+						clean = false
+					}
+					return true
+				})
+				if !okPlain || !clean {
+					continue
+				}
+				if saved == nil {
+					saved = copyNode(d).(*ast.FuncDecl)
+				}
+				var unrolled []ast.Stmt
+				for _, e := range lit.Elts {
+					body := copyNode(rs.Body).(*ast.BlockStmt)
+					var bind ast.Stmt
+					if used {
+						bind = &ast.AssignStmt{Lhs: []ast.Expr{&ast.Ident{Name: valID.Name, NamePos: valID.Pos()}}, Tok: token.DEFINE, TokPos: valID.Pos(), Rhs: []ast.Expr{copyNode(e).(ast.Expr)}}
+					} else {
+						bind = &ast.AssignStmt{Lhs: []ast.Expr{&ast.Ident{Name: "_", NamePos: valID.Pos()}}, Tok: token.ASSIGN, TokPos: valID.Pos(), Rhs: []ast.Expr{copyNode(e).(ast.Expr)}}
+					}
+					unrolled = append(unrolled, &ast.BlockStmt{Lbrace: rs.Body.Lbrace, List: append([]ast.Stmt{bind}, body.List...), Rbrace: rs.Body.Rbrace})
+				}
+				if def != nil {
+					def.Lhs[0] = &ast.Ident{Name: "_", NamePos: def.Lhs[0].Pos()}
+					def.Tok = token.ASSIGN
+					def.Rhs[0] = &ast.BasicLit{Kind: token.INT, Value: "0", ValuePos: def.Rhs[0].Pos()}
+				}
+				nl := append([]ast.Stmt{}, b.List[:idx]...)
+				nl = append(nl, unrolled...)
+				nl = append(nl, b.List[idx+1:]...)
+				b.List = nl
+				idx += len(unrolled) - 1
+				n.res.Sites = append(n.res.Sites, Site{Caller: FuncKey(pk.PkgPath, d), Callee: "table " + tblName, Pos: rs.For})
+				continue
+			}
+			if def == nil {
+				continue // (a function table ranged over directly: not met so far)
 			}
 			okElts := true
 			for _, e := range lit.Elts {
@@ -2048,7 +2167,7 @@ func (n *normalizer) unrollFuncTables(d *ast.FuncDecl, pk *packages.Package) {
 			nl = append(nl, b.List[idx+1:]...)
 			b.List = nl
 			idx += len(unrolled) - 1
-			n.res.Sites = append(n.res.Sites, Site{Caller: FuncKey(pk.PkgPath, d), Callee: "table " + tblID.Name, Pos: rs.For})
+			n.res.Sites = append(n.res.Sites, Site{Caller: FuncKey(pk.PkgPath, d), Callee: "table " + tblName, Pos: rs.For})
 		}
 	}
 	if saved != nil {
